@@ -254,6 +254,40 @@ def r19_3(ctx: Ctx) -> None:
            "an area that itself spans the origin goes through the dedicated adjustment with the record length", form="")
 
 
+def r19_6(ctx: Ctx) -> None:
+    """ a row only remembers one free stretch [self.start, self.end]; add() advances it for every area placed.  Whether a
+        further area fits therefore has to be decided against that stretch - a test against one particular earlier area
+        says nothing about the areas placed after it """
+    from ..flow import exact_condition, nnf_literals
+    qual = "Row.can_fit"
+    func = ctx.fn(AP, qual)
+    cfg = CFG(func)
+    area = func.args.args[1].arg
+    count = 0
+    for ret in [r for r in walk_local(func) if isinstance(r, ast.Return) and r.value is not None]:
+        if isinstance(ret.value, ast.Constant) and ret.value.value is False:
+            continue   # refusing is always safe
+        lits = nnf_literals(facts_of(cfg, ret))
+        if any(text in ("self._contents", "len(self._contents) > 0") and not truth for text, truth in lits):
+            continue   # the row is empty on this path
+        count += 1
+        texts = [text for text, _ in lits] + [txt(ret.value)]
+        against_free_stretch = any("self.start" in text and f"{area}.start" in text for text in texts)
+        ctx.ob("R19.6", AP, ret, qual, f"return {txt(ret.value)[:50]}", against_free_stretch,
+               "an area fits into a non-empty row only if it starts beyond everything already placed (the row's running "
+               "`start`, advanced by add() for each area) - the same for areas that cross the origin",
+               detail="" if against_free_stretch else "the decision does not compare the area's start with the row's free stretch: "
+               "an origin-crossing area is accepted next to an earlier area it overlaps (only the first area of the row is tested)",
+               form=f"{txt(ret.value)[:80]} under {sorted(t for t, _ in lits)[:4]}")
+    if count < 2:
+        raise AnalysisError(f"{qual}: expected the linear and the origin-crossing decision, found {count}")
+
+
+def facts_of(cfg: CFG, node: ast.AST):
+    from ..flow import facts_nnf
+    return facts_nnf(path_facts(cfg, node))
+
+
 JS = "antismash/outputs/html/js.py"
 
 
@@ -417,3 +451,5 @@ def run(ctx: Ctx) -> None:
     r19_4(ctx)
     ctx.rule("R19.5", "gene coordinates of a spanning region: post-origin genes shifted, spanning genes end-shifted", floor=3)
     r19_5(ctx)
+    ctx.rule("R19.6", "a row's fit test is made against its running free stretch", floor=2)
+    r19_6(ctx)
